@@ -1,4 +1,4 @@
-import MorfuseModel.Emit.SimEmit
+import MorfuseModel.Emit.SimNest
 /-!
 # Simulation between the two passes: the remaining constructors and the assembly
 -/
@@ -12,14 +12,14 @@ theorem ms_field (idx : Nat) (ev : Nat) (rd : Nat) (wr : Nat) (l : Node) (ih1 : 
   · simp only [emit]
     split
     · rename_i b
-      have hrd : rd = 1 ∨ rd = 2 := by simpa [Node.plain] using hpl
-      rcases hrd with h1 | h2
-      · subst h1
-        simp only [ok_bind, error_bind, throw_eq, pure_eq, show ¬ (1 : Nat) = 2 by decide, ↓reduceIte, decide_true]
-        ms_steps
-      · subst h2
-        simp only [ok_bind, error_bind, throw_eq, pure_eq, ↓reduceIte]
-        exact J.error_left
+      have hb : b ≤ 6 := by simpa [Node.plain] using hpl
+      by_cases h2 : rd = 2
+      · simp only [h2, ↓reduceIte, error_bind]; exact J.error_left
+      · simp only [h2, ↓reduceIte, ok_bind]
+        by_cases h1 : rd = 1
+        · simp only [h1, decide_true, ↓reduceIte]; ms_steps
+        · simp only [h1, decide_false, Bool.false_eq_true, ↓reduceIte]
+          exact J_gameVar (Rel.addString h idx) b _ _ _ _ ev hb
     · rename_i hx
       simp only [ok_bind, error_bind, throw_eq, pure_eq, ↓reduceIte]
       ms_steps
@@ -75,12 +75,6 @@ theorem ms_carr (a : Node) (xs : Nodes) (ih1 : MSP a) (ih2 : MSPL xs) : MSP (.ca
   ms_walk
 
 theorem ms_marr (xs : Nodes) (ih1 : MSPL xs) : MSP (.marr xs) := by
-  ms_walk
-
-theorem ms_try (b : Node) (c : Node) (ih1 : MSP b) (ih2 : MSP c) : MSP (.try_ b c) := by
-  ms_walk
-
-theorem ms_switch (e : Node) (b : Node) (ih1 : MSP e) (ih2 : MSP b) : MSP (.switch e b) := by
   ms_walk
 
 theorem ms_brk   : MSP (.brk ) := by
